@@ -433,6 +433,11 @@ def run(rep, tier):
     rep.floor("label-sequence helper cases", label_helpers_rule(rep, us["proto/dns.h"]), 3000)
     rep.floor("TS validator cases", ts_validator_rule(rep, us["proto/mpeg2ts.h"]), 200)
     rep.floor("multi-packet generators", serializer_capacity_rule(rep, us["proto/mpeg2ts.h"]), 1)
+    from props import c13_audit
+    c13_audit.end_position_rule(rep, us["proto/radius.h"])
+    c13_audit.chunk_end_rule(rep, us["src/proto/http.c"])
+    usap = driver.load_units([common.src_unit("src/proto/sap_rcvr.c")])["src/proto/sap_rcvr.c"]
+    rep.floor("terminated receive buffers", c13_audit.terminator_room_rule(rep, usap, "src/proto/sap_rcvr.c"), 1)
     # request line: the components returned are sub-spans of the target (rule lives in C20)
     from props import c20
     rep.floor("target component searches", c20.span_rule(rep, us["src/proto/http.c"]), 2)
